@@ -202,7 +202,7 @@ func unaryViolation(x, d tengo.Object, script, strict bool) string {
 		if err != nil {
 			return fmt.Sprintf("x=%s d=%s: script failed: %s", dx, tv.Describe(d), firstLine(err.Error()))
 		}
-		if w := convModel("bytes", x, strict); w.skip == "" || w.skip == "orderly" {
+		if w := convModel("bytes", x, strict); w.skip == "" && !w.rterr {
 			bytesOut, bytesErr = runScript(convScriptLines["bytes"], map[string]tengo.Object{"x": x, "d": d})
 			if bytesOut == nil {
 				return fmt.Sprintf("x=%s: bytes script: %v", dx, bytesErr)
